@@ -605,6 +605,26 @@ func checkSocksNegotiation(r *Report, hs *ssa.Function, label string, cfg socksN
 				}
 				if _, k := bufLen(bufArg(w)); k == 2 {
 					wrote = true
+					// "no acceptable method" is answered too (RFC 1928: METHOD 0xFF, then close): a return
+					// taken because the selected method equals 0xFF has passed the method-selection reply
+					if cfg.methodReply {
+						ww := w
+						for _, ret := range Returns(fn) {
+							noMatch := false
+							for _, ft := range Facts(ret.Block()) {
+								if bo, ok := ft.Cond.(*ssa.BinOp); ok {
+									if k, isC := ConstInt(bo.Y); isC && k == 255 && ((bo.Op == token.EQL && ft.Pol) || (bo.Op == token.NEQ && !ft.Pol)) {
+										noMatch = true
+									}
+								}
+							}
+							if !noMatch {
+								continue
+							}
+							skipped := ReachesWithout(fn, ret, func(in ssa.Instruction) bool { return in == ww.(ssa.Instruction) })
+							r.Ob("R-C20-3", ret.Pos(), !skipped, "the refusal 'no acceptable method' is sent to the client ({VER, 0xFF}) before the negotiation gives up", label, "no-acceptable-method-replied")
+						}
+					}
 				}
 			}
 		}
